@@ -38,7 +38,7 @@ def showRid : Option (List Nat) → String
   | some a => toHex a
 
 /-- ops: reset | file none | file <0|1> <id>* | load | add <k> <id> | remove <k> | set <uid> <id> |
-search <id> | dosearch <id> | getuserid <uid> | lookupall | poke head|next <i> <v> | attach <v> <s> <V> <S> |
+search <id> | dosearch <id> | getuserid <uid> | lookupall | restart create|open load|noload | poke head|next <i> <v> | attach <v> <s> <V> <S> |
 peer <add|remove|set|search|dosearch|getuserid|lookupall …> -/
 def showAll (l : List (Nat × List Int)) : String :=
   if l.isEmpty then "-" else
@@ -51,6 +51,16 @@ def peerOps : List String := ["add", "remove", "set", "search", "dosearch", "get
 def stepCore (d : DS) (ws : List String) : DS × String :=
   match ws with
   | ["lookupall"] => noDump d (do let l ← lookupAll d.s; pure (showAll l))
+  | ["restart", how, what] =>
+    if (how = "create" ∨ how = "open") ∧ (what = "load" ∨ what = "noload") then
+      -- the harness's segment always carries the right header words (the `attach` op restores them)
+      withDump d (do
+        let (sg, ar, isNew, lr) ← restart env 0 0 (some { version := 0, size := 0, st := d.s }) d.file
+          (how = "create") (what = "load")
+        let s' := match sg with | some g => g.st | none => d.s
+        pure (s', showAttach ar ++ " " ++ (if isNew then "1" else "0") ++ " " ++
+          (match lr with | some r => showRet r | none => "-")))
+    else (d, "bad-op")
   | ["reset"] => ({ d with s := resetSt env }, "ok")
   | ["file", "none"] => ({ d with file := none }, "ok")
   | "file" :: t :: ids =>
